@@ -13,6 +13,7 @@ from .common import *
 from . import c01
 
 REPLAY = '''
+  use std::collections::{HashMap, HashSet};
   pub fn vp_consts(ctx: &CompileCtx) -> Vec<Value> {
     let entries: Vec<ParsedConstEntry> = ctx.const_entries.iter().map(|c| ParsedConstEntry { type_id: c.type_id, enc: c.enc as u8, align: c.align, flags: c.flags, reserved: 0, offset: c.offset, length: c.length }).collect();
     let mut types = TypeSection::new(); types.entries = ctx.types.entries.clone();
@@ -64,6 +65,10 @@ def gen_bin(lib, t, tier):
     h.slice = c01.slice_for(lib, t) + ",program"
     h.heavy = True
     h.stub_loc = True
+    # CompileCtx keeps registers, types and features in HashMap/HashSet: all-colliding hasher stub (see c14.HASHER_STUBS)
+    from .c14 import STUB_RS, STUB_DH
+    h.attrs = [STUB_RS] + STUB_DH
+    h.rec_limit = 1
     return h
 
 
@@ -74,7 +79,8 @@ def plan(tier, seed):
         hs.append(gen_bin(lib, t, "quick" if k in (seed % 3, 2 + seed % 2) else "thorough"))
     pre = {}
     for h in hs:
-        pre[h.where] = REPLAY
+        from .c14 import HASHER_STUBS
+        pre[h.where] = HASHER_STUBS + REPLAY
     return {
         "harnesses": hs,
         "incrate_prelude": pre,
